@@ -20,7 +20,7 @@ from pyvc.prove import contract, world_for
 from pyvc.world import World, ASSUMED, VArrVal
 from pyvc.values import (SV, VRef, VStr, VTuple, VFn, VVal, VBool, VInt, VReal, VCls, VExc, VOpt, NONE, Obj, Dict, Arr,
                          EngineError, fresh)
-from pyvc.engine import Result, to_int
+from pyvc.engine import Result, to_int, to_real, is_num
 from pyvc.smt import I, B, R, Str
 
 F = 'biom/table.py'
@@ -1618,3 +1618,205 @@ contract(F, 'Table.del_metadata', tier='A', props=['C18'],
                    invariant=[_del_inv2('sample', 'self._sample_metadata', 'self._observation_metadata'),
                               _del_inv2('observation', 'self._observation_metadata', 'self._sample_metadata'),
                               "not isnone(keys) and (ax == 'sample' or ax == 'observation')"])})
+
+
+# ---- per-vector summaries (C19): nonzero_counts, min, max -----------------------------------------------------------
+ASSUMED['Table.iter_data'] = (
+    'Table.iter_data(dense, axis) yields one vector per id of the axis, in id order: the k-th is row / column k of the '
+    'matrix (dense: a 1-D array; sparse: a 1 x n / n x 1 matrix); an axis other than sample / observation raises '
+    'UnknownAxisError when the iteration starts (its body - a generator over _iter_samp / _iter_obs - is not verified)')
+ASSUMED['vector-ghosts'] = (
+    'on vector k of an axis: x.sum() is the row / column sum (ghost rowsum / colsum), x.nonzero()[0].size the number of '
+    'its non-zero cells (ghost rownz / colnz), x.data.min() / .max() of a sparse vector without stored zeros the least / '
+    'greatest non-zero cell (ghosts vecmin / vecmax; ValueError when the vector has no non-zero cell); the prefix sums '
+    'of colnz / colsum over all columns are nnz_true / total (definitional)')
+vecmin = z3.Function('vecmin', CELL, I, I, I, I, R)     # (cells, nrows, ncols, axis01, k)
+vecmax = z3.Function('vecmax', CELL, I, I, I, I, R)
+colnz_pre = z3.Function('colnz_pre', CELL, I, I, I)     # (cells, nrows, j): non-zero cells in columns < j
+colsum_pre = z3.Function('colsum_pre', CELL, I, I, R)
+
+
+class VVecSeq(SV):
+    kind = 'vecseq'
+
+    def __init__(self, sp, ax, dense):
+        self.sp, self.ax, self.dense = sp, ax, dense     # ax: z3 Bool "axis is sample"
+
+    def sv_iter(self, eng, st, s):
+        n = st.node(self.sp)
+        sh = n.fields['_shape'].items
+        return z3.IntVal(0), z3.If(self.ax, sh[1].term, sh[0].term), (lambda st2, k: VVec(self.sp, self.ax, k, self.dense))
+
+
+class VVec(SV):
+    kind = 'vec'
+
+    def __init__(self, sp, ax, k, dense, part=None):
+        self.sp, self.ax, self.k, self.dense, self.part = sp, ax, k, dense, part
+
+    def parts(self, st):
+        n = st.node(self.sp)
+        sh = n.fields['_shape'].items
+        return n.fields['cell'].term, sh[0].term, sh[1].term, n
+
+    def sv_getattr(self, eng, st, attr):
+        if attr == 'data' and not self.dense and self.part is None:
+            return VVec(self.sp, self.ax, self.k, self.dense, part='data')
+        if attr == 'size' and self.part == 'nonzero':
+            cell, m, n, _ = self.parts(st)
+            return VInt(z3.If(self.ax, colnz(cell, m, self.k), rownz(cell, n, self.k)))
+        raise EngineError('attribute %s of a vector value' % attr)
+
+    def sv_index(self, eng, st, idx, node):
+        if self.part == 'nonzero-tuple':
+            return [Result(st, VVec(self.sp, self.ax, self.k, self.dense, part='nonzero'))]
+        raise EngineError('indexing a vector value')
+
+
+def _tw_method_vec(self, eng, st, recv, name, args, kwargs, node, starv=None, dstar=None):
+    if recv.kind == 'vec':
+        self.used.add('vector-ghosts')
+        cell, m, n, spn = recv.parts(st)
+        if name == 'sum' and recv.part is None and not args and not kwargs:
+            return [Result(st, VReal(z3.If(recv.ax, colsum(cell, m, recv.k), rowsum(cell, n, recv.k))))]
+        if name == 'nonzero' and recv.part is None and recv.dense:
+            return [Result(st, VVec(recv.sp, recv.ax, recv.k, recv.dense, part='nonzero-tuple'))]
+        if name in ('min', 'max') and recv.part == 'data':
+            # least / greatest stored value: the matrix must not hold stored zeros (they would take part)
+            eng.oblige(st, 'call-pre/vector-extreme.no-stored-zeros', z3.Not(spn.fields['haszeros'].term), node.lineno)
+            cnt = z3.If(recv.ax, colnz(cell, m, recv.k), rownz(cell, n, recv.k))
+            f = vecmin if name == 'min' else vecmax
+            out = []
+            yes, no = eng.fork(st, cnt > 0)
+            for s in yes:
+                out.append(Result(s, VReal(f(cell, m, n, z3.If(recv.ax, z3.IntVal(1), z3.IntVal(0)), recv.k))))
+            for s in no:
+                out.append(eng.exc(s, 'ValueError'))
+            return out
+        raise EngineError('%s:%d: method %s on a vector value' % (eng.rel, node.lineno, name))
+    return _prev_method_vec(self, eng, st, recv, name, args, kwargs, node, starv, dstar)
+
+
+_prev_method_vec = TableWorld.call_method
+TableWorld.call_method = _tw_method_vec
+
+
+def _tw_obj_method_iter(self, eng, st, recv, n, name, args, kwargs, node, starv=None, dstar=None):
+    if n.cls == 'Table' and name == 'iter_data':
+        self.used.add('Table.iter_data')
+        dense = kwargs.get('dense', args[0] if args else VBool(True))
+        axis = kwargs.get('axis', args[1] if len(args) > 1 else VStr('sample'))
+        if not (dense.kind == 'bool' and z3.is_true(z3.simplify(dense.term)) or z3.is_false(z3.simplify(dense.term))):
+            raise EngineError('%s:%d: iter_data with a symbolic dense flag' % (eng.rel, node.lineno))
+        out = []
+        is_s, rest = eng.fork(st, axis.term == smt.str_lit('sample'))
+        for s in is_s:
+            out.append(Result(s, VVecSeq(s.node(recv).fields['_data'], z3.BoolVal(True), z3.is_true(z3.simplify(dense.term)))))
+        for s in rest:
+            is_o, bad = eng.fork(s, axis.term == smt.str_lit('observation'))
+            for s2 in is_o:
+                out.append(Result(s2, VVecSeq(s2.node(recv).fields['_data'], z3.BoolVal(False), z3.is_true(z3.simplify(dense.term)))))
+            for s2 in bad:
+                out.append(eng.exc(s2, 'UnknownAxisError'))
+        return out
+    return _prev_obj_method_iter(self, eng, st, recv, n, name, args, kwargs, node, starv, dstar)
+
+
+_prev_obj_method_iter = TableWorld.obj_method
+TableWorld.obj_method = _tw_obj_method_iter
+
+
+def _tw_spec_vec(self, eng, st, n, e, bound):
+    if n in ('vecmin', 'vecmax', 'colnz_pre', 'colsum_pre'):
+        m = st.node(eng.sev(e.args[0], st, bound))
+        sh = m.fields['_shape'].items
+        cell = m.fields['cell'].term
+        if n in ('vecmin', 'vecmax'):
+            ax = eng.sev(e.args[1], st, bound)
+            k = to_int(eng.sev(e.args[2], st, bound))
+            f = vecmin if n == 'vecmin' else vecmax
+            return VReal(f(cell, sh[0].term, sh[1].term, z3.If(ax.term == smt.str_lit('sample'), z3.IntVal(1), z3.IntVal(0)), k))
+        j = to_int(eng.sev(e.args[1], st, bound))
+        return VInt(colnz_pre(cell, sh[0].term, j)) if n == 'colnz_pre' else VReal(colsum_pre(cell, sh[0].term, j))
+    return _prev_spec_vec(self, eng, st, n, e, bound)
+
+
+_prev_spec_vec = TableWorld.spec_call
+TableWorld.spec_call = _tw_spec_vec
+
+
+def _tw_globals_vec(self, eng, st, c):
+    out = _prev_globals_vec(self, eng, st, c)
+    a, m, n, j = fresh('a', CELL), fresh('m', I), fresh('n', I), fresh('j', I)
+    st.assume(z3.ForAll([a, m], colnz_pre(a, m, 0) == 0, patterns=[colnz_pre(a, m, 0)]),
+              z3.ForAll([a, m, j], z3.Implies(j >= 0, colnz_pre(a, m, j + 1) == colnz_pre(a, m, j) + colnz(a, m, j)),
+                        patterns=[z3.MultiPattern(colnz_pre(a, m, j), colnz(a, m, j))]),
+              z3.ForAll([a, m, n], z3.Implies(n >= 0, colnz_pre(a, m, n) == nnz_true(a, m, n)), patterns=[nnz_true(a, m, n)]),
+              z3.ForAll([a, m], colsum_pre(a, m, 0) == 0, patterns=[colsum_pre(a, m, 0)]),
+              z3.ForAll([a, m, j], z3.Implies(j >= 0, colsum_pre(a, m, j + 1) == colsum_pre(a, m, j) + colsum(a, m, j)),
+                        patterns=[z3.MultiPattern(colsum_pre(a, m, j), colsum(a, m, j))]),
+              z3.ForAll([a, m, n], z3.Implies(n >= 0, colsum_pre(a, m, n) == total(a, m, n)), patterns=[total(a, m, n)]))
+    return out
+
+
+_prev_globals_vec = TableWorld.globals_for
+TableWorld.globals_for = _tw_globals_vec
+
+_VEC = "(colsum(self._data, k) if axis == 'sample' else rowsum(self._data, k))"
+_VNZ = "vecnz(self._data.cell, self._data.shape[0], self._data.shape[1], axis, k)"
+contract(F, 'Table.nonzero_counts', tier='A', props=['C19'],
+    types={'self': 'Obj:Table', 'axis': 'Str', 'binary': 'Bool'},
+    requires=WF_T,
+    returns='Arr[Real]',
+    ensures=[
+        # per vector of the requested axis: the number of its non-zero cells, or (binary=False) its sum
+        "implies(%s, len(result) == (len(self._sample_ids) if axis == 'sample' else len(self._observation_ids)))" % AX,
+        "implies((%s) and binary, all(result[k] == %s for k in range(len(result))))" % (AX, _VNZ),
+        "implies((%s) and not binary, all(result[k] == %s for k in range(len(result))))" % (AX, _VEC),
+        # any other axis value: one number for the whole table
+        "implies(not (%s), len(result) == 1 and result[0] == (nnz_true(self._data) if binary else total(self._data)))" % AX,
+        "samecells(self._data, old(self._data.cell))",
+    ],
+    modifies=[],
+    loops={0: dict(header="for idx, vals in enumerate(self.iter_data(axis=axis))", invariant=[
+               "implies(binary, all(result[k] == %s for k in range(0, __i0)))" % _VNZ,
+               "implies(not binary, all(result[k] == %s for k in range(0, __i0)))" % _VEC,
+               "len(result) == (len(self._sample_ids) if axis == 'sample' else len(self._observation_ids))"]),
+           1: dict(header="for vals in self.iter_data()", invariant=[
+               "len(result) == 1 and result[0] == (colnz_pre(self._data, __i1) if binary else colsum_pre(self._data, __i1))"])})
+
+ASSUMED['np.inf'] = 'numpy.inf is modelled as an unconstrained real constant (only the neutral start of a running minimum / maximum over the whole table, about which nothing is claimed)'
+np_inf = z3.Real('np_inf')
+
+
+def _tw_builtin_minmax(self, eng, st, name, args, kwargs, node, starv=None, dstar=None):
+    if name in ('max', 'min') and len(args) == 2 and all(is_num(a) for a in args) and any(a.kind == 'real' for a in args):
+        a, b = to_real(args[0]), to_real(args[1])
+        return [Result(st, VReal(z3.If((a >= b) if name == 'max' else (a <= b), a, b)))]
+    return _prev_builtin_minmax(self, eng, st, name, args, kwargs, node, starv, dstar)
+
+
+_prev_builtin_minmax = TableWorld.call_builtin
+TableWorld.call_builtin = _tw_builtin_minmax
+
+
+for _fn, _gh in (('min', 'vecmin'), ('max', 'vecmax')):
+    contract(F, 'Table.' + _fn, tier='A', props=['C19'],
+        types={'self': 'Obj:Table', 'axis': 'Str'},
+        requires=WF_T,
+        returns='Val',
+        ensures=[
+            # per vector of the requested axis: the least / greatest of its non-zero cells
+            "implies(%s, len(result) == (len(self._sample_ids) if axis == 'sample' else len(self._observation_ids)) and "
+            "all(result[k] == %s(self._data, axis, k) for k in range(len(result))))" % (AX, _gh),
+            "samecells(self._data, old(self._data.cell))",
+        ],
+        raises={'UnknownAxisError': ["not (%s or axis == 'whole')" % AX],
+                # a vector without a non-zero cell has no minimum / maximum
+                'ValueError': []},
+        modifies=['self._data.*'],
+        loops={0: dict(header="for data in self.iter_data(dense=False)", invariant=[]),
+               1: dict(header="for idx, data in enumerate(self.iter_data(dense=False, axis=axis))", invariant=[
+                   "all(%s_val[k] == %s(self._data, axis, k) for k in range(0, __i1))" % (_fn, _gh),
+                   "len(%s_val) == (len(self._sample_ids) if axis == 'sample' else len(self._observation_ids))" % _fn,
+                   "not self._data.haszeros"])})
